@@ -933,7 +933,12 @@ class HostConnectionPool(object):
             conn.close()
             self.open_count -= 1
 
-        for conn in self._trash:
+        # return_connection() may add to / remove from the trash concurrently
+        with self._lock:
+            trash_conns = self._trash
+            self._trash = set()
+
+        for conn in trash_conns:
             conn.close()
 
     def ensure_core_connections(self):
